@@ -27,9 +27,18 @@ fn adapter_typed(s: &Schema) -> bool {
     }
 }
 fn resolve<'a>(spec: &'a Spec, r: &'a SRef) -> Option<&'a Schema> {
-    match r {
-        SRef::Ref(n) => comp(spec, n),
-        SRef::Inl(s) => Some(s),
+    resolve_n(spec, r, 8)
+}
+/// the schema a reference stands for, seen through component references and single-member allOf wrappers (the type of
+/// `allOf: [{type: integer, x-format: date}]` is that of its member)
+fn resolve_n<'a>(spec: &'a Spec, r: &'a SRef, depth: usize) -> Option<&'a Schema> {
+    let s = match r {
+        SRef::Ref(n) => comp(spec, n)?,
+        SRef::Inl(s) => s,
+    };
+    match &s.kind {
+        Kind::AllOf(l) if l.len() == 1 && depth > 0 => resolve_n(spec, &l[0], depth - 1).or(Some(s)),
+        _ => Some(s),
     }
 }
 
@@ -207,7 +216,7 @@ pub fn instances(spec: &Spec, h: &HirSpec) -> Vec<Instance> {
         let ty = name.as_str().to_rust_struct().0;
         for (mode, label) in [(Mode::All, "all"), (Mode::RequiredOnly, "required_only"), (Mode::Nulls, "nulls")] {
             take_flags();
-            if adapter_typed(s) {
+            if adapter_typed(s) || matches!(&s.kind, Kind::AllOf(l) if l.len() == 1 && resolve(spec, &l[0]).map(adapter_typed).unwrap_or(false)) {
                 flag("adapter_value_nested"); // the component itself: a tuple struct / alias, no `with` there either
             }
             if let Some(v) = inst(spec, s, mode, 6) {
